@@ -8,19 +8,25 @@
 (* right after the last leader write with revision <= that index, so kv IS the *)
 (* leader content at the sample's index; "prev" is the index the previous      *)
 (* sample of that table saw (sampling order).                                  *)
-(* "fquiet": the situation after the leader stopped changing.                  *)
+(* "lrecreate": the leader deleted the table and created it again (another,    *)
+(* empty table under the same name; samples of the follower's copy of the old  *)
+(* one are placed before this event).                                          *)
+(* "ffinal": the follower's content of a table after the leader stopped        *)
+(* changing; "fquiet": the table sets and whether the indices were reached.    *)
 EXTENDS Table, Json, TLC
 
 CONSTANTS TraceFile, Deviations
 TraceLog == ndJsonDeserialize(TraceFile)
 
 Tabs == {"t1", "t2"}
-VARIABLES l, kv, lastRev
-vars == <<l, kv, lastRev>>
+VARIABLES l, kv, lastRev, recreated
+vars == <<l, kv, lastRev, recreated>>
+
+Dev(name) == name \in Deviations /\ TLCSet(7, TLCGet(7) \cup {name})
 
 Ev == TraceLog[l]
 IsEvent(name) == l <= Len(TraceLog) /\ Ev.ev = name /\ l' = l + 1
-TInit == l = 1 /\ kv = [t \in Tabs |-> EmptyKV] /\ lastRev = [t \in Tabs |-> 0]
+TInit == l = 1 /\ kv = [t \in Tabs |-> EmptyKV] /\ lastRev = [t \in Tabs |-> 0] /\ recreated = {} /\ TLCSet(7, {})
 
 TLWrite ==
   /\ IsEvent("lwrite")
@@ -30,6 +36,13 @@ TLWrite ==
      /\ Ev.val = x.val
      /\ kv' = [kv EXCEPT ![t] = x.kv]
      /\ lastRev' = [lastRev EXCEPT ![t] = Ev.rev]
+     /\ UNCHANGED recreated
+
+TLRecreate ==
+  /\ IsEvent("lrecreate")
+  /\ kv' = [kv EXCEPT ![Ev.table] = EmptyKV]
+  /\ lastRev' = [lastRev EXCEPT ![Ev.table] = 0]
+  /\ recreated' = recreated \cup {Ev.table}
 
 RECURSIVE MapOf(_, _)
 MapOf(mp, ps) == IF ps = <<>> THEN mp
@@ -37,30 +50,47 @@ MapOf(mp, ps) == IF ps = <<>> THEN mp
 
 \* the follower table equals the leader table AT ITS RECORDED LEADER INDEX (checked when the index did not move
 \* during the read), and that index never moves backwards
+\* KNOWN FINDING RecreateNotNoticed (see TFFinal): "stale" marks a sample of the follower shard that replicated a table
+\* the leader has deleted and created again meanwhile; once the new table's log is longer than the old one's the
+\* follower appends the NEW table's commands to the OLD table's content
 TFObs ==
   /\ IsEvent("fobs")
-  /\ Ev.li1 <= Ev.li2
-  /\ Ev.li1 >= Ev.prev
-  /\ Ev.li1 >= lastRev[Ev.table] \/ Ev.li1 # Ev.li2     \* (placement by the driver: no later leader write precedes it)
-  /\ (Ev.li1 = Ev.li2 => /\ Len(Ev.kvs) = Cardinality({Ev.kvs[i].k : i \in 1..Len(Ev.kvs)})
-                         /\ {<<Ev.kvs[i].k, Ev.kvs[i].v>> : i \in 1..Len(Ev.kvs)} = {<<k, kv[Ev.table][k]>> : k \in DOMAIN kv[Ev.table]})
-  /\ UNCHANGED <<kv, lastRev>>
+  /\ IF /\ Ev.li1 <= Ev.li2
+        /\ Ev.li1 >= Ev.prev
+        /\ (Ev.li1 >= lastRev[Ev.table] \/ Ev.li1 # Ev.li2)     \* (placement by the driver: no later leader write precedes it)
+        /\ (Ev.li1 = Ev.li2 => /\ Len(Ev.kvs) = Cardinality({Ev.kvs[i].k : i \in 1..Len(Ev.kvs)})
+                               /\ {<<Ev.kvs[i].k, Ev.kvs[i].v>> : i \in 1..Len(Ev.kvs)} = {<<k, kv[Ev.table][k]>> : k \in DOMAIN kv[Ev.table]})
+     THEN TRUE
+     ELSE Ev.stale /\ Dev("RecreateNotNoticed")
+  /\ UNCHANGED <<kv, lastRev, recreated>>
 
-\* once the leader stops changing the follower reaches its latest state, and the table sets agree
+\* once the leader stops changing the follower reaches its latest state ...
+\* KNOWN FINDING RecreateNotNoticed: the follower compares table NAMES only; a table deleted and created again on the
+\* leader between two of its looks keeps the old table's content (and its index) on the follower for ever
+TFFinal ==
+  /\ IsEvent("ffinal")
+  /\ IF /\ Ev.read
+        /\ Len(Ev.kvs) = Cardinality({Ev.kvs[i].k : i \in 1..Len(Ev.kvs)})
+        /\ {<<Ev.kvs[i].k, Ev.kvs[i].v>> : i \in 1..Len(Ev.kvs)} = {<<k, kv[Ev.table][k]>> : k \in DOMAIN kv[Ev.table]}
+     THEN TRUE
+     ELSE Ev.table \in recreated /\ Dev("RecreateNotNoticed")
+  /\ UNCHANGED <<kv, lastRev, recreated>>
+
+\* ... and the table sets agree
 TFQuiet ==
   /\ IsEvent("fquiet")
-  /\ Ev.converged
+  /\ IF Ev.converged THEN TRUE ELSE recreated # {} /\ Dev("RecreateNotNoticed")
   /\ {Ev.leader_tables[i] : i \in 1..Len(Ev.leader_tables)} = {Ev.follower_tables[i] : i \in 1..Len(Ev.follower_tables)}
-  /\ UNCHANGED <<kv, lastRev>>
+  /\ UNCHANGED <<kv, lastRev, recreated>>
 
-TReset == IsEvent("reset") /\ kv' = [t \in Tabs |-> EmptyKV] /\ lastRev' = [t \in Tabs |-> 0]
+TReset == IsEvent("reset") /\ kv' = [t \in Tabs |-> EmptyKV] /\ lastRev' = [t \in Tabs |-> 0] /\ recreated' = {}
 
-TNext == TLWrite \/ TFObs \/ TFQuiet \/ TReset
+TNext == TLWrite \/ TLRecreate \/ TFObs \/ TFFinal \/ TFQuiet \/ TReset
 TSpec == TInit /\ [][TNext]_vars
 
 TraceAccepted ==
   LET d == TLCGet("stats").diameter IN
-  /\ PrintT(<<"DEVIATIONS_USED", {}>>)
+  /\ PrintT(<<"DEVIATIONS_USED", TLCGet(7)>>)
   /\ IF d - 1 = Len(TraceLog) THEN PrintT("TRACE_ACCEPTED")
      ELSE Print(<<"TRACE_REJECTED_AT_LINE", d>>, FALSE)
 =============================================================================
